@@ -161,7 +161,8 @@ Judge(e) ==
     [] OTHER -> <<"unknown event", e.ev>>
 
 \* With VERIF_STATS set, the class the specification puts every call in is appended to <trace file>.stats (one
-\* JSON line per event): the check reports from it which as-built choices the run exercised (observations).
+\* JSON line per event; TLC evaluates Next again when it reconstructs an error trace, so lines carry the position
+\* and the reader keeps one per position): the check reports from it which as-built choices the run exercised.
 Stat(e) ==
   CASE e.ev = "import" -> LET r == JwkImport(e.shape, JLift(e.tree)) IN
                           [ev |-> "import", src |-> e.src, blk |-> e.blk, verdict |-> r.verdict, err |-> e.err,
@@ -178,7 +179,7 @@ Start == IF "VERIF_START" \in DOMAIN IOEnv THEN atoi(IOEnv.VERIF_START) ELSE 1
 Init == l = Start /\ bad = <<>>
 Next == /\ l <= Len(Trace)
         /\ bad' = Judge(Trace[l])
-        /\ Stats => CSVWrite("%1$s", <<ToJson(Stat(Trace[l]))>>, IOEnv.VERIF_TRACE \o ".stats")
+        /\ Stats => CSVWrite("%1$s", <<ToJson([i |-> l, s |-> Stat(Trace[l])])>>, IOEnv.VERIF_TRACE \o ".stats")
         /\ l' = l + 1
 Spec == Init /\ [][Next]_vars
 
